@@ -114,6 +114,9 @@ def run_op(cx, name, lib, ref, mode='exact', allow=(), result='pt', sig_extra=''
     if msg:
         sig = f'value:{name}{sig_extra}'
         cx.V(sig, f'{name}: {msg}')
+    elif result == 'pt' and isinstance(r['value'], torch.Tensor) and val.physical.dtype != r['value'].dtype:
+        # same values in another element type are not "the same dense tensor": a following operation behaves differently
+        cx.V(f'dtype:{name}{sig_extra}', f'{name}: result stored as {val.physical.dtype}, the corresponding torch operation gives {r["value"].dtype}')
     return val
 
 
